@@ -60,12 +60,19 @@ def value_diff(res, tier, seed):
                 n_skip += 1
                 continue
             gv = None
-            gerr = g.get("error")
-            if not gerr and k < len(g.get("logs", [])):
-                for entry in g["logs"][k]:
+            gerr = None
+            logs_g = g.get("logs", [])
+            if k < len(logs_g):
+                # this step completed (an error of the run belongs to the first step without a log)
+                for entry in logs_g[k]:
                     if entry[0] == "r" and entry[1] == "a":
                         gv = entry[2]
-            elif not gerr:
+            elif k == len(logs_g) and g.get("error"):
+                gerr = g["error"]
+            elif g.get("error"):
+                n_skip += 1     # a later step of a run that stopped: not observed
+                continue
+            else:
                 gerr = "no log for step %d" % k
             if "error" in r:
                 if gerr or gv is None:
@@ -74,9 +81,8 @@ def value_diff(res, tier, seed):
                     bad.append((e, d, "reference throws (%s) but generated code yields a value" % r["error"], gv, None))
                 continue
             if gerr:
-                # generated code throws at the first failing step; later steps are not observed
                 bad.append((e, d, "generated code throws: %s" % gerr, None, r["value"]))
-                break
+                continue
             if json.dumps(gv, sort_keys=True) != json.dumps(r["value"], sort_keys=True):
                 bad.append((e, d, "value differs", gv, r["value"]))
     return exprs, n_eval, n_skip, n_both_err, shapes, sizes, bad
